@@ -64,6 +64,11 @@ CHECKS["C11"] = dict(engine="Escape", ref="3 (C11)",
     note="Trusted: TLC; unicode_categories for the printable judgement in unicode mode; neighbours are a sample of the lines at edit distance 1.",
     technique="TLA+ byte-level spec of escaper + reader, TLC check of losslessness/printability, class sequences and byte/scalar sweeps replayed into the real escaper and parser, TLC judgement of every record")
 
+CHECKS["C09"] = dict(engine="Generate", ref="3 (C09)",
+    text="specs/Generate.tla describes an output as a sequence of <= 2 (thorough 3) line classes out of 22 (plain, blank, whitespace-only, leading / trailing blanks, lines that look like `[1]`, `$ x`, `> x`, fences, lines ending in ` (glob)` / ` (?)` / ` ()` / ` (escaped)` / ` (no-eol)`, backslashes, control bytes, both, UTF-8, category-other characters, invalid UTF-8, `# x`) x final newline x exit code {0,3} x format {md,cram} x escaper {ascii,unicode} x path {create, update after changed output, update after changed exit code}; TLC enumerates all 24312 cases. Each case is concretised and pushed through the real generator (Markdown/Cram TestCaseGenerator or UpdateGenerator), parsed back with the matching parser and validated against the same output; TLC judges each record with C09ok (generated, parsed, exactly one test, same command, passes) and names the case from the class table. Failing cases are attributed to root causes (a class whose single-line output already fails).",
+    note="Trusted: TLC; one concrete representative per class and record. Library path only. 13 syntax-collision classes are known findings (an output line that looks like document syntax is written verbatim), printed as KNOWN-FINDING.",
+    technique="TLA+ enumeration of output shapes with a class table, replay through generate;parse;validate of the real code, TLC judgement of every record")
+
 NOT_YET = {
 }
 
@@ -113,6 +118,7 @@ def main():
              "kind_free_text": "TLA+ spec of Cram documents: positional reference CramRef, line machine CramTok, MC_CramDoc (equivalence + GEN), CramTrace (comparison of real parses)"},
             {"name": "ExpectationGrammar", "path": "specs/ExpectationGrammar.tla", "serves_properties": ["C08"], "kind_free_text": "token-level grammar of expectation lines (ParseRef), MC_ExpectationGrammar (GEN + sanity), ExpectationTrace (judgement of real parses and round trips)"},
             {"name": "Escape", "path": "specs/Escape.tla", "serves_properties": ["C11"], "kind_free_text": "byte-level model of escaper and escaped-text reader, MC_Escape (lossless/printable + GEN), EscapeTrace (judgement of real escaper output)"},
+            {"name": "Generate", "path": "specs/Generate.tla", "serves_properties": ["C09"], "kind_free_text": "line-class model of command output and its collisions with document syntax; MC_Generate (enumeration), GenerateTrace (judgement of real generate;parse;validate runs)"},
             {"name": "Rules", "path": "specs/Rules.tla", "serves_properties": ["C04"],
              "kind_free_text": "TLA+ reference semantics of the expectation kinds; MC_Rules (enumeration + sanity), RulesTrace (re-evaluation of implementation answers)"},
         ],
